@@ -50,6 +50,23 @@ def is_zero_row(e):
 
 def densified_in_station_order(ck, rid, f, fl, value, node, mapping, station_src):
     """value is a matrix whose rows follow station_src order: mapping[row id] if present else zeros."""
+    # several reaching definitions (e.g. a fast path and the general path): every one of them must be densified
+    v0 = value
+    while isinstance(v0, ast.Call) and call_name(v0) in ("array", "asarray", "list", "tuple") and v0.args:
+        v0 = v0.args[0]
+    if isinstance(v0, ast.Name):
+        defs = sorted(fl.defs_at(node, v0.id), key=lambda d: d.id)
+        if len(defs) > 1 and all(fl.def_how(d, v0.id)[0] == "assign" for d in defs):
+            ok = True
+            for d in defs:
+                ok = densified_in_station_order(ck, rid, f, fl, fl.def_how(d, v0.id)[1], d, mapping, station_src) and ok
+            return ok
+    # recognised and wrong: the rows are taken in the mapping's own order
+    if (isinstance(v0, ast.Call) and call_name(v0) in ("values", "items", "keys") and isinstance(v0.func, ast.Attribute) and canon(fl.expand(v0.func.value, node)) == mapping) \
+            or (isinstance(v0, ast.Name) and v0.id == mapping):
+        ck.violation(rid, f, value, f"the matrix rows are `{src(v0, 50)}`, i.e. in the order of the mapping's entries, not in the network's station order: "
+                     f"rows are recorded for / applied to the wrong stations whenever the two orders differ", sink="densify-order")
+        return False
     elems = collect_list(fl, value, node)
     if elems is None:
         raise AnalysisError(f"{f.qual}: construction of the schedule matrix not recognised: {src(value)}")
@@ -294,7 +311,36 @@ def rule_broadcast(ck, rid="C04.R6"):
                sink="broadcast-evse")
 
 
+def rule_writers(ck, rid="C04.R8"):
+    """only the block write of _update_schedules, the content-preserving growth and (de)construction write pilot_signals."""
+    from ..rules import who_writes
+    repo = ck.repo
+    n = 0
+    for f, kind, p, t in who_writes(repo, "pilot_signals"):
+        if "/tests/" in f.module or not p.startswith(("self.", "out_obj.", "sim.", "simulator.")):
+            continue
+        n += 1
+        if f.qual in ("Simulator.__init__", "Simulator._from_dict"):
+            ck.holds(rid, f, t, "construction / restore")
+            continue
+        if f.qual == "Simulator._update_schedules":
+            ck.holds(rid, f, t, "the block write and growth checked by R3/R4")
+            continue
+        fl = flow_of(f)
+        node = None
+        for nd in fl.cfg.nodes:
+            if nd.kind == "stmt" and any(x is t for x in ast.walk(nd.stmt)):
+                node = nd
+        grow = node is not None and kind == "assign" and isinstance(node.stmt.value, ast.Call) and call_name(node.stmt.value) == "_increase_width" \
+            and node.stmt.value.args and canon(node.stmt.value.args[0]) == p
+        ck.require(grow and f.qual in ("Simulator.run", "Simulator.step"), rid, f, node.stmt if node is not None else t, ok="content-preserving growth of the matrix",
+                   bad=f"`{src(node.stmt if node is not None else t, 70)}` writes pilot_signals outside _update_schedules: pilots of periods a submitted schedule covers are "
+                       f"overwritten by something other than a schedule", sink=f"writer:{f.qual}:{kind}")
+    ck.floor(rid, n, 4, "writers of pilot_signals")
+
+
 def run(ck):
+    rule_writers(ck)
     rule_update_schedules(ck)
     rule_increase_width(ck)
     rule_none(ck)
